@@ -134,3 +134,77 @@ def all_defs(fi: FuncInfo, name: str) -> List[ast.AST]:
                 isinstance(x, ast.Name) and x.id == name for x in ast.walk(n.optional_vars)):
             out.append(n)
     return out
+
+
+# ---------------------------------------------------------------------------------------------------------------------
+def _atoms(test: ast.AST, want: bool) -> List[Tuple[ast.AST, bool]]:
+    """Atoms whose truth value is KNOWN when `test` evaluated to `want` (conjunctions when true, disjunctions when false)."""
+    if isinstance(test, ast.UnaryOp) and isinstance(test.op, ast.Not):
+        return _atoms(test.operand, not want)
+    if isinstance(test, ast.BoolOp):
+        if isinstance(test.op, ast.And) == want:
+            out: List[Tuple[ast.AST, bool]] = []
+            for v in test.values:
+                out += _atoms(v, want)
+            return out
+        return []           # `a or b` true / `a and b` false: nothing is known about a single operand
+    return [(test, want)]
+
+
+def atom_key(e: ast.AST, truth: bool) -> Tuple[str, bool]:
+    """Canonical (text, truth) of an atom: complementary comparison operators and swapped == / is operands fall together."""
+    from .paths import canon_atom
+    c = canon_atom(e)
+    if c is not None:
+        return c[0], truth != c[1]
+    return norm(e), truth
+
+
+def dominating_conditions(mod: Module, node: ast.AST, stop: Optional[ast.AST] = None) -> Set[Tuple[str, bool]]:
+    """What is known to hold whenever `node` is evaluated, as canonical (atom text, truth value) pairs: the tests of the enclosing
+    if statements / conditional expressions / short-circuit operators on the way up to `stop` (the function), and the negations
+    of earlier `if c: return | raise | continue | break` guards in the enclosing blocks.  Assignments between a guard and the node
+    are not tracked: the caller asks about expressions it knows to be stable (a parameter, a loop variable)."""
+    out: Set[Tuple[str, bool]] = set()
+    child, p = node, mod.parents.get(node)
+    while p is not None and p is not stop and not isinstance(p, (ast.FunctionDef, ast.AsyncFunctionDef, ast.Lambda, ast.ClassDef, ast.Module)):
+        if isinstance(p, (ast.If, ast.While)):
+            if any(child is s for s in p.body):
+                out |= {atom_key(a, t) for a, t in _atoms(p.test, True)}
+            elif any(child is s for s in p.orelse) and isinstance(p, ast.If):
+                out |= {atom_key(a, t) for a, t in _atoms(p.test, False)}
+        elif isinstance(p, ast.IfExp):
+            if child is p.body:
+                out |= {atom_key(a, t) for a, t in _atoms(p.test, True)}
+            elif child is p.orelse:
+                out |= {atom_key(a, t) for a, t in _atoms(p.test, False)}
+        elif isinstance(p, ast.BoolOp):
+            i = next((k for k, v in enumerate(p.values) if v is child), None)
+            if i:
+                for v in p.values[:i]:      # `a and X`: X runs only when a held; `a or X`: only when a did not
+                    out |= {atom_key(a, t) for a, t in _atoms(v, isinstance(p.op, ast.And))}
+        elif isinstance(p, ast.comprehension) and child is not p.iter:
+            pass
+        if isinstance(child, ast.stmt):
+            blk = enclosing_block(mod, child)
+            if blk is not None:
+                for st in blk[:next(k for k, s in enumerate(blk) if s is child)]:
+                    if isinstance(st, ast.If) and not st.orelse and st.body and isinstance(st.body[-1], (ast.Return, ast.Raise, ast.Continue, ast.Break)):
+                        out |= {atom_key(a, t) for a, t in _atoms(st.test, False)}
+        child, p = p, mod.parents.get(p)
+    if isinstance(child, ast.stmt) and p is not None:
+        blk = enclosing_block(mod, child)
+        if blk is not None and any(s is child for s in blk):
+            for st in blk[:next(k for k, s in enumerate(blk) if s is child)]:
+                if isinstance(st, ast.If) and not st.orelse and st.body and isinstance(st.body[-1], (ast.Return, ast.Raise, ast.Continue, ast.Break)):
+                    out |= {atom_key(a, t) for a, t in _atoms(st.test, False)}
+    # comprehension filters
+    child, p = node, mod.parents.get(node)
+    while p is not None and p is not stop:
+        if isinstance(p, (ast.ListComp, ast.SetComp, ast.GeneratorExp, ast.DictComp)) and child is not p.generators[0].iter:
+            for g in p.generators:
+                for c in g.ifs:
+                    if c is not child:
+                        out |= {atom_key(a, t) for a, t in _atoms(c, True)}
+        child, p = p, mod.parents.get(p)
+    return out
